@@ -130,7 +130,7 @@ def judge(ctx, rec, stats, samples, nontrivial):
     """all four clauses for one solve; returns number of evaluations"""
     r, c, opts = rec["res"], rec["case"], rec["opts"]
     cc = cfg_class(rec)
-    rp = {"case": c["name"], "class": c["cls"], "text": c["text"], "opts": opts, "config": cc}
+    rp = {"case": c["name"], "class": c["cls"], "text": c["text"], "opts": opts, "config": cc, "max_bits": c.get("max_bits")}
     ev = 0
     n = len(r.accm)
     zr = r.meta.get("zero_roots", 0)
@@ -240,12 +240,12 @@ def run(ctx):
     env = ctx.san_env()
     if ctx.replay:
         rp = json.load(open(ctx.replay))
-        case = {"name": rp["case"], "cls": rp.get("class", "replay"), "text": rp["text"], "coeffs": None, "degree": 0}
+        case = {"name": rp["case"], "cls": rp.get("class", "replay"), "text": rp["text"], "coeffs": None, "degree": 0, "max_bits": rp.get("max_bits")}
         co = [(case, rp["opts"])]
     else:
         co = build_cases(ctx)
     ctx.log("running %d solves" % len(co))
-    recs = e2e.run_records(ctx, binary, co, env, timeout=ctx.pick(30, 600))
+    recs = e2e.run_records_safe(ctx, binary, co, env, timeout=ctx.pick(30, 600))
     nfloat = mark_exact_float_inputs(recs)
     ctx.log("solves done")
     # resolution cap by degree (cost of a certificate ~ degree^2 * bits^2)
